@@ -47,12 +47,14 @@ inductive Ord where
 
 inductive Act where
   | wait                      -- waits for the context to be cancelled, then fails (no HTTP status)
+  | callerCancel              -- the caller's context ends during this call; the call fails (no HTTP status)
   | err (status : Nat)
   | page (k : Option Nat) (ord : Ord) (pre : Bool) (inj : List Obj)
 
 def actOf? (s : List Char) : Option Act :=
   match s with
   | ['w'] => some .wait
+  | ['c'] => some .callerCancel
   | 'e' :: rest => some (.err ((natOf? rest).getD 0))
   | 'p' :: rest =>
     let (body, pre, injs) : List Char × Bool × Option (List Obj) :=
@@ -99,6 +101,7 @@ def scriptBackend (holdings : List Obj) (script : List Act) : Backend := fun o i
   match script[idx]?.getD (.page none .f false []) with
   | .err s => .error s
   | .wait => .error 0
+  | .callerCancel => .error 0
   | .page k ord pre inj =>
     let m := holdings.filter (fun h => matchFilters h.uuid o.filters)
     let m := match ord with
@@ -138,6 +141,21 @@ def renderReq (o : Opts) : String :=
 def renderResp : Resp → String
   | .error s => s!"E{s}"
   | .page items => "P" ++ joinC "," (pageUuids items)
+
+/-- `hlist` (request and remotes go through HTTP: rpc.Conn -> router): only what survives the
+translation is compared — the sorted batch of a single `uuid in` filter, "*" for any other filter list -/
+def renderReqReduced (o : Opts) : String :=
+  match o.filters with
+  | [f] =>
+    if f.attr = sUuid ∧ f.op = sIn then
+      match f.operand with
+      | .slist xs => "F=uuid~in~t:" ++ ",".intercalate ((sortStrs xs).map String.ofList)
+      | .ilist xs =>
+        if xs.all Option.isSome then "F=uuid~in~t:" ++ ",".intercalate ((sortStrs (xs.filterMap id)).map String.ofList)
+        else "F=*"
+      | _ => "F=*"
+    else "F=*"
+  | _ => "F=*"
 
 def renderRun (r : Run) : String :=
   let head := match r.out with
@@ -240,7 +258,13 @@ def renderURun (localId : ClusterId) (rem : List ClusterId) (login : ClusterId) 
 
 def step (line : String) : String :=
   match fields line with
-  | ["list", kind0, loc, max, remotes, opts, filters, world, scripts] =>
+  | [op, kind0, loc, max, remotes, opts, filters, world, scripts] =>
+    if op != "list" && op != "hlist" then "bad-op" else
+    let render : Run → String := fun r =>
+      if op == "hlist" then
+        renderHead r.out ++ " | " ++ renderLogs ((r.log.filter (fun e => !e.2.isEmpty)).map fun e =>
+          (String.ofList e.1, " // ".intercalate (e.2.map fun c => renderReqReduced c.1 ++ " => " ++ renderResp c.2)))
+      else renderRun r
     let (kind, login?) : String × Option (List Char) :=
       match splitFirst '@' kind0.toList with
       | some (k, l) => (String.ofList k, some l)
@@ -265,7 +289,9 @@ def step (line : String) : String :=
           localB := scriptBackend (holdingsOf localId) (scriptFor localId)
           remotes := fun c => if rem.contains c then some (scriptBackend (holdingsOf c) (scriptFor c)) else none }
       -- a `w` action at index k of a backend's script: its calls from index k on see a cancelled context
-      let isWait : Act → Bool := fun a => match a with | .wait => true | _ => false
+      let isWait : Act → Bool := fun a => match a with | .wait => true | .callerCancel => true | _ => false
+      let isCaller : Act → Bool := fun a => match a with | .callerCancel => true | _ => false
+      let external := scs.any (fun p => p.2.any isCaller)
       let cut : ClusterId → Option Nat := fun c =>
         if c == localId || rem.contains c then
           let sc := scriptFor c
@@ -279,7 +305,7 @@ def step (line : String) : String :=
           | .err _ :: _ => true
           | _ => false
         pure (renderURun localId rem login (runUserList cfg login updFails o))
-      | none => pure (renderRun (if hasWait then runCancel cfg o cut else run cfg o))
+      | none => pure (render (if hasWait then runCancel cfg o cut external else run cfg o))
     res.getD "bad-op"
   | _ => "bad-op"
 
